@@ -30,6 +30,7 @@ enum Q {
     All,
     Cat(String),
     IRange(i64, i64),
+    IdRange(u64, u64),
 }
 
 fn q_matches(c: &Corpus, d: usize, q: &Q) -> bool {
@@ -37,6 +38,7 @@ fn q_matches(c: &Corpus, d: usize, q: &Q) -> bool {
         Q::All => true,
         Q::Cat(x) => filter_matches(c, d, &FilterQ::Cat(x.clone())),
         Q::IRange(a, b) => filter_matches(c, d, &FilterQ::IRange(*a, *b)),
+        Q::IdRange(a, b) => filter_matches(c, d, &FilterQ::IdRange(*a, *b)),
     }
 }
 
@@ -50,6 +52,10 @@ fn q_build(s: &Sch, q: &Q) -> Box<dyn Query> {
         Q::IRange(a, b) => Box::new(RangeQuery::new(
             Bound::Included(Term::from_field_i64(s.f[Fd::Fi.idx()], *a)),
             Bound::Included(Term::from_field_i64(s.f[Fd::Fi.idx()], *b)),
+        )),
+        Q::IdRange(a, b) => Box::new(RangeQuery::new(
+            Bound::Included(Term::from_field_u64(s.f[Fd::Id.idx()], *a)),
+            Bound::Included(Term::from_field_u64(s.f[Fd::Id.idx()], *b)),
         )),
     }
 }
@@ -222,6 +228,9 @@ struct ReqCase {
     focus: String,
     /// the shape is about segments with many matching documents: prefer the match-all query
     prefer_all: bool,
+    /// the shape is about terms / buckets that lose their documents in some partitions: prefer a
+    /// filtering query
+    prefer_filter: bool,
 }
 
 impl ReqCase {
@@ -231,6 +240,7 @@ impl ReqCase {
             probe,
             focus: String::new(),
             prefer_all: false,
+            prefer_filter: false,
         }
     }
     fn focus(a: ((String, Agg), String), prefer_all: bool) -> ReqCase {
@@ -239,23 +249,52 @@ impl ReqCase {
             probe: Probe::None,
             focus: a.1,
             prefer_all,
+            prefer_filter: false,
+        }
+    }
+    fn focus_filtered(a: ((String, Agg), String)) -> ReqCase {
+        ReqCase {
+            aggs: vec![a.0],
+            probe: Probe::None,
+            focus: a.1,
+            prefer_all: false,
+            prefer_filter: true,
         }
     }
 }
 
-fn gen_req_case(rng: &mut Rng, corpus: &Corpus) -> ReqCase {
+/// what a stream of cases is about
+#[derive(Clone, Copy, PartialEq, Eq, Debug)]
+enum Mode {
+    /// every request shape
+    Main,
+    /// terms(min_doc_count = 0) x every sub aggregation kind under a filtering query: placeholder
+    /// results of terms without matching documents in one partition merged with real results
+    Placeholder,
+    /// top-level terms x one histogram leaf (the fused collector) x include / exclude x hard_bounds
+    Fused,
+}
+
+fn gen_req_case(rng: &mut Rng, corpus: &Corpus, mode: Mode) -> ReqCase {
     let mut g = Gen {
         rng,
         corpus,
         counter: 0,
     };
+    match mode {
+        Mode::Placeholder => return ReqCase::focus_filtered(g.gen_terms_mdc0_over_sub()),
+        Mode::Fused => return ReqCase::focus(g.gen_fused_terms_hist(), false),
+        Mode::Main => {}
+    }
     // segments beyond the sub-aggregation flush threshold: mostly nested requests
     let multi_flush = corpus.docs.len() > 2048;
     // long runs of one value with a long mantissa: more metrics over the buckets of that field
     let wide_runs = !corpus.wide_run_fields().is_empty()
         || (corpus.docs.len() >= 30 && !corpus.absent_numeric_fields().is_empty());
-    let r = g.rng.weighted(&[50, 10, 7, 3, 3, 10, if wide_runs { 30 } else { 8 }, 6, if multi_flush { 60 } else { 5 }]);
+    let r = g.rng.weighted(&[50, 10, 7, 3, 3, 10, if wide_runs { 30 } else { 8 }, 6, if multi_flush { 60 } else { 5 }, 5, 5]);
     match r {
+        9 => ReqCase::focus_filtered(g.gen_terms_mdc0_over_sub()),
+        10 => ReqCase::focus(g.gen_fused_terms_hist(), false),
         0 => ReqCase::plain(g.gen_request(), Probe::None),
         1 => ReqCase::plain(vec![g.gen_terms_approx()], Probe::None),
         5 => ReqCase::focus(g.gen_terms_by_key(), false),
@@ -332,6 +371,8 @@ fn gen_req_case(rng: &mut Rng, corpus: &Corpus) -> ReqCase {
                 missing: None,
                 show_err: None,
                 approx: false,
+                include: None,
+                exclude: None,
                 subs: vec![(
                     "tophits_1".to_string(),
                     Agg::TopHits {
@@ -567,11 +608,17 @@ fn report_mismatches(
     }
 }
 
-fn case_fn(quick: bool) -> impl Fn(u64, &mut Rng, &mut Report) + Sync {
+fn case_fn(quick: bool, mode: Mode) -> impl Fn(u64, &mut Rng, &mut Report) + Sync {
     move |case: u64, rng: &mut Rng, rep: &mut Report| {
         let sch = build_schema();
         // quick: every 10th case is a corpus just beyond a multiple of the flush threshold
-        let corpus = gen_corpus(rng, !quick || case % 6 == 5, quick && case % 10 == 7);
+        let corpus = if mode == Mode::Main {
+            gen_corpus(rng, !quick || case % 6 == 5, quick && case % 10 == 7)
+        } else {
+            // the focused streams are about merges, not about volume: small corpora (in thorough
+            // one in nine beyond the flush threshold)
+            gen_corpus(rng, !quick, false)
+        };
         let n = corpus.docs.len();
         let all: Vec<usize> = (0..n).collect();
         // partitions
@@ -582,7 +629,8 @@ fn case_fn(quick: bool) -> impl Fn(u64, &mut Rng, &mut Report) + Sync {
         rng.shuffle(&mut shuffled);
         let k2 = rng.urange(2, 6);
         let l2 = split_contiguous(rng, &shuffled, k2);
-        let m = rng.urange(1, 3);
+        // the placeholder stream is about merges: at least two separately searched indexes
+        let m = rng.urange(if mode == Mode::Placeholder { 2 } else { 1 }, 3);
         let mut shuffled2 = all.clone();
         rng.shuffle(&mut shuffled2);
         let groups = split_contiguous(rng, &shuffled2, m);
@@ -627,15 +675,28 @@ fn case_fn(quick: bool) -> impl Fn(u64, &mut Rng, &mut Report) + Sync {
         }
         rep.observe("corpus_size_class", format!("{}", if n == 0 { 0 } else { (n as f64).log2() as u32 + 1 }));
 
-        let nreq = rng.urange(3, 4);
+        let nreq = if mode == Mode::Main { rng.urange(3, 4) } else { rng.urange(5, 6) };
         for ri in 0..nreq {
-            let rc = gen_req_case(rng, &corpus);
-            let q = match rng.weighted(&if rc.prefer_all { [90, 5, 5] } else { [60, 20, 20] }) {
+            let rc = gen_req_case(rng, &corpus, mode);
+            let weights = if rc.prefer_all {
+                [90, 5, 5, 0]
+            } else if rc.prefer_filter {
+                [8, 22, 25, 45]
+            } else {
+                [60, 20, 20, 0]
+            };
+            let q = match rng.weighted(&weights) {
                 0 => Q::All,
                 1 => Q::Cat(format!("c{}", rng.usize_below(corpus.cat_pool))),
-                _ => {
+                2 => {
                     let a = rng.irange(-60, 40);
                     Q::IRange(a, a + rng.irange(0, 100))
+                }
+                _ => {
+                    // a run of consecutive documents: empties whole contiguous segments and
+                    // thins out shuffled ones
+                    let a = rng.range(0, n as u64);
+                    Q::IdRange(a, a + rng.range(0, (n as u64 * 2 / 3).max(1)))
                 }
             };
             let matching: Vec<usize> = all.iter().cloned().filter(|&d| q_matches(&corpus, d, &q)).collect();
@@ -669,7 +730,7 @@ fn case_fn(quick: bool) -> impl Fn(u64, &mut Rng, &mut Report) + Sync {
                     }
                 }
             }
-            rep.observe("query_kind", match q { Q::All => "all", Q::Cat(_) => "term", Q::IRange(..) => "range" });
+            rep.observe("query_kind", match q { Q::All => "all", Q::Cat(_) => "term", Q::IRange(..) => "range", Q::IdRange(..) => "id-range" });
             rep.observe("probe", format!("{:?}", rc.probe));
             if ri == 0 && !corpus.wide_run_fields().is_empty() {
                 rep.count("corpora_with_a_long_run_of_one_wide_value", 1);
@@ -726,6 +787,10 @@ fn case_fn(quick: bool) -> impl Fn(u64, &mut Rng, &mut Report) + Sync {
                             Err(p) => Err(format!("panic: {} @ {}", p.message, p.location)),
                         };
                         variants.push(("fold".into(), g(&|| fold(pieces.clone()))));
+                        // the same pieces the other way round: every pair of pieces is merged
+                        // with either one as the left operand
+                        let rev: Vec<IntermediateAggregationResults> = pieces.iter().rev().cloned().collect();
+                        variants.push(("fold-reversed".into(), g(&|| fold(rev.clone()))));
                         let mut perm = pieces.clone();
                         rng.shuffle(&mut perm);
                         variants.push(("fold-right-permuted".into(), g(&|| fold_right(perm.clone()))));
@@ -881,7 +946,9 @@ fn case_fn(quick: bool) -> impl Fn(u64, &mut Rng, &mut Report) + Sync {
 
 fn main() {
     let ctx = Ctx::from_env("C14", "exploration");
-    let rep = run_cases(&ctx, "main", ctx.scale(900, 6000) as u64, case_fn(ctx.quick()));
+    let mut rep = run_cases(&ctx, "main", ctx.scale(900, 6000) as u64, case_fn(ctx.quick(), Mode::Main));
+    rep.merge(run_cases(&ctx, "placeholder", ctx.scale(220, 2500) as u64, case_fn(ctx.quick(), Mode::Placeholder)));
+    rep.merge(run_cases(&ctx, "fused", ctx.scale(120, 1200) as u64, case_fn(ctx.quick(), Mode::Fused)));
     simple_finish(
         &ctx,
         rep,
